@@ -15,17 +15,51 @@ theorem mapME_ok {α β : Type} (f : α → Except Err β) (g : α → β) (xs :
 
 /-! ## Slicing one location -/
 
-theorem sliceLocE_eq (iF iL : Int) (l : Loc) (h : l.WF) :
-    sliceLocE iF iL l = .ok (sliceLoc iF iL l) := by
+theorem sliceLocE_eq (iF iL : Option Int) (l : Loc) (h : l.WF) :
+    sliceLocE iF iL l = .ok (sliceLocO iF iL l) := by
   unfold Loc.WF at h
-  unfold sliceLocE sliceLoc mkLoc
-  by_cases hc : l.first ≤ iL ∧ l.last ≥ iF ∧ iF ≤ iL
-  · simp only [hc, and_self, if_true]
-    have hgt : ¬ ((if l.first < iF then iF else l.first) > (if l.last > iL then iL else l.last)) := by
-      split <;> split <;> omega
-    simp only [hgt, if_false]
-    by_cases h1 : l.first < iF <;> by_cases h2 : l.last > iL <;> simp [h1, h2]
-  · simp [hc]
+  unfold sliceLocE sliceLocO sliceLoc mkLoc
+  cases iF with
+  | none =>
+    cases iL with
+    | none =>
+      have c : l.first ≤ l.last ∧ l.last ≥ l.first ∧ l.first ≤ l.last := ⟨h, h, h⟩
+      have g : ¬ (l.first > l.last) := by omega
+      simp [c, g, h]
+    | some y =>
+      by_cases hc : l.first ≤ y
+      · have c : l.first ≤ y ∧ l.last ≥ l.first ∧ l.first ≤ y := ⟨hc, h, hc⟩
+        by_cases h2 : l.last > y
+        · have g : ¬ (l.first > y) := by omega
+          simp [hc, c, h2, g]
+        · have g : ¬ (l.first > l.last) := by omega
+          simp [hc, c, h2, g]
+      · have c : ¬ (l.first ≤ y ∧ l.last ≥ l.first ∧ l.first ≤ y) := fun x => hc x.1
+        simp [hc, c]
+  | some x =>
+    cases iL with
+    | none =>
+      by_cases hc : l.last ≥ x
+      · have c : l.first ≤ l.last ∧ l.last ≥ x ∧ x ≤ l.last := ⟨h, hc, hc⟩
+        by_cases h1 : l.first < x
+        · have g : ¬ (x > l.last) := by omega
+          simp [hc, c, h1, g]
+        · have g : ¬ (l.first > l.last) := by omega
+          simp [hc, c, h1, g]
+      · have c : ¬ (l.first ≤ l.last ∧ l.last ≥ x ∧ x ≤ l.last) := fun z => hc z.2.1
+        simp [hc, c]
+    | some y =>
+      by_cases hc : l.first ≤ y ∧ l.last ≥ x ∧ x ≤ y
+      · obtain ⟨c1, c2, c3⟩ := hc
+        have g1 : ¬ (x > y) := by omega
+        have g2 : ¬ (x > l.last) := by omega
+        have g3 : ¬ (l.first > y) := by omega
+        have g4 : ¬ (l.first > l.last) := by omega
+        by_cases h1 : l.first < x <;> by_cases h2 : l.last > y <;>
+          simp [c1, c2, c3, h1, h2, g1, g2, g3, g4]
+      · have c : ¬ ((l.first ≤ y ∧ l.last ≥ x) ∧ x ≤ y) := fun z => hc ⟨z.1.1, z.1.2, z.2⟩
+        simp only [Option.getD_some, hc, if_false]
+        simp [c]
 
 theorem sliceLoc_some (iF iL : Int) (l l' : Loc) (_h : l.WF) (hs : sliceLoc iF iL l = some l') :
     (l.first ≤ iL ∧ l.last ≥ iF ∧ iF ≤ iL) ∧
@@ -76,22 +110,39 @@ theorem sliceLoc_none_iff (iF iL : Int) (l : Loc) (h : l.WF) :
 
 /-! ## Slicing a feature / an annotation -/
 
-theorem sliceFeatureE_eq (iF iL : Int) (f : Feature) (h : ∀ l ∈ f.locs, l.WF) :
-    sliceFeatureE iF iL f = .ok (sliceFeature iF iL f) := by
-  unfold sliceFeatureE sliceFeature
-  rw [mapME_ok (sliceLocE iF iL) (sliceLoc iF iL) f.locs (fun l hl => sliceLocE_eq iF iL l (h l hl))]
+theorem sliceFeatureE_eq (iF iL : Option Int) (f : Feature) (h : ∀ l ∈ f.locs, l.WF) :
+    sliceFeatureE iF iL f = .ok (sliceFeatureO iF iL f) := by
+  unfold sliceFeatureE sliceFeatureO
+  rw [mapME_ok (sliceLocE iF iL) (sliceLocO iF iL) f.locs (fun l hl => sliceLocE_eq iF iL l (h l hl))]
   simp only [List.filterMap_map]
-  have : (id ∘ sliceLoc iF iL) = sliceLoc iF iL := rfl
+  have : (id ∘ sliceLocO iF iL) = sliceLocO iF iL := rfl
   rw [this]
   split <;> rfl
 
 theorem sliceAnnotE_eq (a b : Option Int) (ann : Annot) (h : Annot.WF ann) :
-    sliceAnnotE a b ann = .ok (sliceAnnot (iFirst a) (iLast b) ann) := by
-  unfold sliceAnnotE sliceAnnot
-  rw [mapME_ok _ (sliceFeature (iFirst a) (iLast b)) ann
+    sliceAnnotE a b ann = .ok (sliceAnnotO a (b.map (· - 1)) ann) := by
+  unfold sliceAnnotE sliceAnnotO iFirst iLast
+  rw [mapME_ok _ (sliceFeatureO a (b.map (· - 1))) ann
     (fun f hf => sliceFeatureE_eq _ _ f (h f hf).2)]
   simp only [List.filterMap_map]
   rfl
+
+theorem sliceFeatureO_some (iF iL : Option Int) (f f' : Feature) (hs : sliceFeatureO iF iL f = some f') :
+    f'.key = f.key ∧ f'.qual = f.qual ∧ f'.locs = f.locs.filterMap (sliceLocO iF iL) ∧ f'.locs ≠ [] := by
+  unfold sliceFeatureO at hs
+  by_cases hc : (f.locs.filterMap (sliceLocO iF iL)).length > 0
+  · simp only [hc, if_true, Option.some.injEq] at hs
+    subst hs
+    refine ⟨rfl, rfl, rfl, ?_⟩
+    intro h0
+    simp only [] at h0
+    rw [h0] at hc
+    simp at hc
+  · simp [hc] at hs
+
+/-- Both bounds given: the window is the integer window. -/
+theorem sliceAnnotO_some_some (x y : Int) (ann : Annot) :
+    sliceAnnotO (some x) (some y) ann = sliceAnnot x y ann := rfl
 
 theorem sliceFeature_some (iF iL : Int) (f f' : Feature) (hs : sliceFeature iF iL f = some f') :
     f'.key = f.key ∧ f'.qual = f.qual ∧ f'.locs = f.locs.filterMap (sliceLoc iF iL) ∧ f'.locs ≠ [] := by
@@ -436,17 +487,19 @@ theorem bioOrder_perm (st : Strand) (ls : List Loc) : (bioOrder st ls).Perm ls :
 
 theorem bioOrder_sorted_fwd (ls : List Loc) :
     (bioOrder .fwd ls).Pairwise (fun a b => a.first ≤ b.first) := by
-  have := sortBy_pairwise (fun (a b : Loc) => decide (a.first ≤ b.first))
+  have := sortBy_pairwise (fun (a b : Loc) => decide (a.first < b.first ∨ (a.first = b.first ∧ a.last ≤ b.last)))
     (by intro a b c h1 h2; simp only [decide_eq_true_eq] at *; omega)
     (by intro a b; simp only [decide_eq_true_eq]; omega) ls
-  simpa [bioOrder] using this
+  refine List.Pairwise.imp ?_ this
+  intro a b h; simp only [decide_eq_true_eq] at h; omega
 
 theorem bioOrder_sorted_rev (ls : List Loc) :
     (bioOrder .rev ls).Pairwise (fun a b => b.last ≤ a.last) := by
-  have := sortBy_pairwise (fun (a b : Loc) => decide (b.last ≤ a.last))
+  have := sortBy_pairwise (fun (a b : Loc) => decide (b.last < a.last ∨ (b.last = a.last ∧ b.first ≤ a.first)))
     (by intro a b c h1 h2; simp only [decide_eq_true_eq] at *; omega)
     (by intro a b; simp only [decide_eq_true_eq]; omega) ls
-  simpa [bioOrder] using this
+  refine List.Pairwise.imp ?_ this
+  intro a b h; simp only [decide_eq_true_eq] at h; omega
 
 theorem uniformStrand_of (st : Strand) (ls : List Loc) (hne : ls ≠ [])
     (h : ∀ l ∈ ls, l.strand = st) : uniformStrand ls = some st := by
@@ -517,11 +570,39 @@ theorem Feature.same_refl (f : Feature) : Feature.same f f = true := by
   simp only [beq_self_eq_true, Bool.true_and, Bool.and_eq_true, List.all_eq_true, List.contains_iff_mem]
   exact ⟨fun l hl => hl, fun l hl => hl⟩
 
-theorem setSlice_eq (s : ASeq) (a b : Option Int) (v : List Nat) :
+theorem setSlice_eq (s : ASeq) (a b : Option Int) (v : List Nat)
+    (ha : ∀ x, a = some x → s.start ≤ x) (hb : ∀ x, b = some x → s.start ≤ x) :
     setSlice s a b v =
       match assignSlice s.seq ((a.map (· - s.start)).getD 0) ((b.map (· - s.start)).getD (s.seq.length : Int)) v with
       | .error e => .error e
       | .ok seq' => .ok { s with seq := seq' } := by
-  cases a <;> cases b <;> rfl
+  cases a with
+  | none =>
+    cases b with
+    | none => simp [setSlice] <;> rfl
+    | some y => have := hb y rfl; have h : ¬ y < s.start := by omega
+                simp [setSlice, h] <;> rfl
+  | some x =>
+    have := ha x rfl
+    have hx : ¬ x < s.start := by omega
+    cases b with
+    | none => simp [setSlice, hx] <;> rfl
+    | some y => have := hb y rfl; have h : ¬ y < s.start := by omega
+                simp [setSlice, hx, h] <;> rfl
+
+theorem any_first_lt_false (ls : List Loc) (start : Int) (h : ∀ l ∈ ls, start ≤ l.first) :
+    ls.any (fun l => decide (l.first < start)) = false := by
+  rw [Bool.eq_false_iff]
+  intro hany
+  rw [List.any_eq_true] at hany
+  obtain ⟨l, hl, hd⟩ := hany
+  simp only [decide_eq_true_eq] at hd
+  have := h l hl
+  omega
+
+theorem any_first_lt_true (ls : List Loc) (start : Int) (l : Loc) (hl : l ∈ ls) (h : l.first < start) :
+    ls.any (fun l => decide (l.first < start)) = true := by
+  rw [List.any_eq_true]
+  exact ⟨l, hl, by simp only [decide_eq_true_eq]; exact h⟩
 
 end BiotiteModel.C13
